@@ -644,7 +644,8 @@ class Check(PropertyCheck):
                     elif c == "P": toks += [str(len(x))] + [T(y) for p in x for y in p]
             return [" ".join(toks)]
         if kind == "str":
-            return ["nat " + case["data_hex"]]
+            # both transcriptions of the decoder: byte-at-a-time (`native`) and CPython's range-based control flow
+            return ["nat " + case["data_hex"], "natr " + case["data_hex"]]
         if kind == "enc":
             return ["enc u" + case["cps"]]
         if kind == "rt":
@@ -656,7 +657,9 @@ class Check(PropertyCheck):
     def model_obs(self, case, replies):
         r = replies[0]
         if case["kind"] == "seq": return r.split(" ; ") if r != "empty" else []
-        if case["kind"] in ("str", "enc"): return r
+        if case["kind"] == "str":
+            return r if replies[1] == r else {"native": r, "nativeRange": replies[1]}
+        if case["kind"] == "enc": return r
         if case["kind"] == "rt":
             m = re.fullmatch(r"bytes (\S+) lines (\d+)((?: \S+)*) res (.*)", r)
             if not m: return r
